@@ -6,7 +6,7 @@ import ast
 import re
 
 from . import rule
-from ..model import Unresolved, walk_scope, parent, enclosing_function, qualname
+from ..model import Unresolved, walk_scope, parent, enclosing_function, qualname, ancestors
 from ..paths import U, Path, Evaluator
 from .. import q
 
@@ -155,6 +155,22 @@ def r1(rr, repo):
     rr.floor('paths of execute_xform_size that skip the resize', n_skip, 1, mod, fn)
     vmod, vfn, region, vpaths = video_paths(repo)
     rr.paths += len(vpaths)
+    # the size a frame is resized to is worked out from THAT frame: a value carried over from an earlier iteration of the frame loop (a size cached
+    # from the first frame) bounds only frames of the same dimensions - a stream that changes resolution gets frames over the bound or enlarged
+    carried = False
+    for c in [c for c in ast.walk(vfn) if isinstance(c, ast.Call) and U(c.func) == 'cv2.resize' and len(c.args) >= 2]:
+        loops = [a for a in ancestors(c) if isinstance(a, (ast.While, ast.For))]
+        loop = loops[0] if loops else None
+        for nm in {x.id for x in ast.walk(c.args[1]) if isinstance(x, ast.Name)}:
+            defs = [d for d in ast.walk(vfn) if (isinstance(d, ast.Assign) and any(isinstance(t, ast.Name) and t.id == nm for t in d.targets)) or
+                    (isinstance(d, (ast.NamedExpr, ast.AugAssign)) and isinstance(d.target, ast.Name) and d.target.id == nm)]
+            outside = [d for d in defs if loop is not None and not any(a is loop for a in ancestors(d))]
+            if outside and [d for d in defs if d not in outside]:
+                carried = True
+                rr.violated(f'video reader: the size handed to cv2.resize ({nm}) is also assigned outside the frame loop, so a value computed for an earlier frame can size a later one '
+                            f'(the bound is only checked against the frame it was computed from)', vmod, c, witness=f'{nm} assigned at lines {sorted(d.lineno for d in defs)}', key=f'size-loop-carried|{nm}')
+    if carried:
+        return
     n = 0
     for p in vpaths:
         mx = p.facts.get('truthy(maxsize)')
